@@ -1664,7 +1664,7 @@ pub fn count_faultable(ctx: &mut Ctx, scn: &StoreScn) -> Vec<FaultableCall> {
             let faultable = match r.op {
                 IoOp::Create | IoOp::Write | IoOp::Fsync | IoOp::OpenWriteExisting => r.what != "write-deferred-error" && !r.what.ends_with("eintr"),
                 IoOp::Unlink => r.res >= 0,
-                IoOp::OpenRead | IoOp::Mmap => reads,
+                IoOp::OpenRead | IoOp::Mmap | IoOp::Read | IoOp::OpenDir => reads,
                 IoOp::Stat => reads && r.fd >= 0,
                 _ => false,
             };
